@@ -341,6 +341,10 @@ func (g *c16Gen) document(t *c16Type, strict bool, plan *c16Plan) *doc.Node {
 			}
 			continue
 		}
+		if f.Key != "" && g.r.IntN(6) == 0 {
+			// the field answers to its tag only: its lower-cased Go name is an ordinary leftover key
+			m.Map = append(m.Map, doc.P(strings.ToLower(f.Name), doc.S("not-the-tag-name")))
+		}
 		x := g.r.IntN(10)
 		switch {
 		case x < 5:
